@@ -167,6 +167,12 @@ class PassHarness:
             imm, line = args
             if isinstance(imm, (list, tuple)) and imm and isinstance(imm[0], str):
                 return it.inline(f, args, kwargs)
+            if not isinstance(imm, (list, tuple)):
+                # precondition of parse_immediate: a LIST of tokens (it joins them with spaces; a bare string would be
+                # taken apart character by character)
+                it.run.notes.setdefault('pre_violations', []).append('parse_immediate is handed %s instead of a list of tokens' % (
+                    'a single string token' if isinstance(imm, (str, I.Sym)) else type(imm).__name__))
+                imm = [imm]
             # unknown tokens: some expression object, or a refusal
             key = ('parse', tuple(id(x) if not isinstance(x, I.Sym) else x.t.get_id() for x in imm))
             return builder.named_expr(key, 'parsed')
